@@ -139,7 +139,8 @@ def c10(tier, seed, work):
                 dict(name="c10-nosessR", insess=False, cmds="CmdsAR", maxcalls=1, maxatt=4, kinds="KindsSessionless", auth=1, integ=1)]
         mc = [("MCConsole", "MC_Console_sess.cfg"), ("MCConsole", "MC_Console_nosess.cfg")]
     return console_check("C10", tier, seed, work, mc, fams, COMMON_ASSUME,
-                         hs_fams=[dict(name="c10-hs-retry", family="retry", tier=tier, seed=seed)])
+                         hs_fams=[dict(name="c10-hs-retry", family="retry", tier=tier, seed=seed),
+                                  dict(name="c10-hs-retry-rt", family="retry", tier=tier, seed=seed + 1, opts={"blockOnLost": True, "timeoutMs": 40})])
 
 
 def c11(tier, seed, work):
@@ -171,7 +172,29 @@ def c04(tier, seed, work):
                 for s in SUITES]
         fams.append(dict(name="c04-forge3", insess=True, cmds="CmdsAR", maxcalls=2, maxatt=3, kinds="KindsForge", auth=a, integ=i))
         mc = [("MCConsole", "MC_Console_sess.cfg")]
-    return console_check("C04", tier, seed, work, mc, fams, COMMON_ASSUME)
+    res = console_check("C04", tier, seed, work, mc, fams, COMMON_ASSUME)
+    # tampering and forgery catalogue (GenForge.tla), validated with the generic walk trace spec
+    suites = SUITES if tier != "quick" else [suite_for(seed, 3), suite_for(seed, 7)]
+    forge = [F.walk_family(work, "c04-tamper-%d-%d" % s, "MCGenForge", "Gen_Forge.cfg.tpl", "forge", tier, seed,
+                           extra_subst=dict(AUTH=s[0], INTEG=s[1])) for s in suites]
+    require_accepted(forge)
+    extra = []
+    for f in forge:
+        extra += flatten(f)
+    attach_scripts(extra)
+    res["viols"] += extra
+    cov = res["coverage"]
+    n = sum(f["scripts"] for f in forge)
+    cov["traces_validated_against_impl"] += n
+    cov["evaluations"] += n
+    cov["distinct_nontrivial"] += n
+    cov["events_validated"] += sum(f["events"] for f in forge)
+    cov["families"] += fam_cov(forge)
+    cov["rule"] += (" Tampering: every single-bit flip and every truncation of an authentic encrypted reply, and a forgery "
+                    "catalogue (flag cleared, empty/short/random/untruncated AuthCode, wrong key, wrong hash, wrong/zero/BMC session "
+                    "ID, unsigned plaintext, a confidentiality pad wrong in each single position / length), each followed by an "
+                    "authentic reply with a different value; one script per bit / length / forgery.")
+    return res
 
 
 CHECKS = {"C09": c09, "C10": c10, "C11": c11, "C04": c04}
@@ -283,3 +306,27 @@ def c16(tier, seed, work):
 
 
 CHECKS.update({"C12": c12, "C16": c16})
+
+
+def c03(tier, seed, work):
+    a, i = suite_for(seed, 5)
+    hs = [dict(name="c03-honest", family="honest", tier=tier, seed=seed),
+          dict(name="c03-long", family="long", tier=tier, seed=seed)]
+    if tier == "quick":
+        fams = [dict(name="c03-retry", insess=True, cmds="CmdsAR", maxcalls=2, maxatt=2, kinds="KindsRetry", auth=a, integ=i)]
+        mc = [("MCConsole", "MC_Console_sess_quick.cfg")]
+    else:
+        fams = [dict(name="c03-retry-%d-%d" % s, insess=True, cmds="CmdsAR", maxcalls=2, maxatt=2, kinds="KindsRetry", auth=s[0], integ=s[1]) for s in SUITES]
+        fams.append(dict(name="c03-group", insess=True, cmds="CmdsAGH", maxcalls=2, maxatt=2, kinds="KindsRetry", auth=a, integ=i))
+        mc = [("MCConsole", "MC_Console_sess.cfg")]
+    res = console_check("C03", tier, seed, work, mc, fams, COMMON_ASSUME, hs_fams=hs)
+    res["level"] = "exploration"
+    res["coverage"]["rule"] = ("Every in-session datagram recorded from the real library is parsed by TLC (wrapper, integrity pad, "
+                               "AuthCode verdict under the BMC-side K1, IV, ciphertext length, confidentiality pad, message checksums, "
+                               "inner command) in three families: honest sessions for all 9 suites with raw commands of body length "
+                               "0..40 (every residue mod 4 and mod 16), long histories for IV freshness, and exhaustive retry outcome "
+                               "sequences (retransmissions after busy / bad signature / garbage). Distinct = distinct scripts.")
+    return res
+
+
+CHECKS.update({"C03": c03})
